@@ -1,9 +1,10 @@
 //! Provides [PriceRepository], which can compute the commodity (currency) conversion.
 
-use std::{
-    collections::{hash_map, BinaryHeap, HashMap},
-    path::Path,
-};
+#[cfg(okane_verif)]
+use crate::verif::{hash_map, HashMap};
+#[cfg(not(okane_verif))]
+use std::collections::{hash_map, HashMap};
+use std::{collections::BinaryHeap, path::Path};
 
 use chrono::{NaiveDate, TimeDelta};
 use rust_decimal::Decimal;
